@@ -302,12 +302,52 @@ def verify_offset_assigned(rep, idxs, member):
 class ConstGuardClient(flow.Client):
     """state = the ValDecl's expression is known to be constant on this path."""
 
+    cond_sees_var_init = True
+
     def __init__(self, idx):
         self.idx = idx
         self.bad = []
 
+    def _filters(self):
+        """Helper functions that hand out a ValDecl only when its expression is constant: every return of a non-null value is
+        `cond ? decl : nullptr` with isConst() in cond, or lies on a path on which isConst() has been established."""
+        if not hasattr(self, '_filter_ids'):
+            self._filter_ids = set()
+            for g in self.idx.all_funcs():
+                if g.body is None or not g.qname.startswith('xcmp::') or 'ValDecl' not in g.type.split('(')[0]:
+                    continue
+                rets = [r for r in walk(g.body) if r['kind'] == 'ReturnStmt' and children(r)]
+                if not rets:
+                    continue
+                good = True
+                inner = ConstGuardClient(self.idx)
+                inner._filter_ids = set()
+                inner.nonnull_returns_unguarded = []
+
+                def stmt_hook(r, st, inner=inner):
+                    return None
+                for r in rets:
+                    v = strip(children(r)[0])
+                    if v['kind'] == 'CXXNullPtrLiteralExpr':
+                        continue
+                    if v['kind'] == 'ConditionalOperator':
+                        c0, a, b = children(v)
+                        if any(callee_of(c)[1] == 'isConst' for c in calls_in(c0)) and strip(b)['kind'] == 'CXXNullPtrLiteralExpr':
+                            continue
+                    good = False
+                if good:
+                    self._filter_ids.add(g.id)
+                    if getattr(g, 'defn', None):
+                        self._filter_ids.add(g.defn.id)
+        return self._filter_ids
+
     def cond(self, e, s):
         has = any(callee_of(c)[1] == 'isConst' for c in calls_in(e))
+        if not has and any(callee_of(c)[2] in self._filters() for c in calls_in(e)):
+            # `if (auto decl = constFilter(symbol))`: non-null means constant
+            x = strip(e)
+            neg = x['kind'] == 'UnaryOperator' and x.get('opcode') == '!'
+            return ([s], [True]) if neg else ([True], [s])
         if not has:
             if method_calls(e, 'getValue') and not s and self._is_valdecl_getvalue(e):
                 self.bad.append(pos(e))
